@@ -57,6 +57,13 @@ def run(ctx):
     for what, lst in (("eisa", ids + bad_ids), ("uuid", uu + bad_uu)):
         for i in range(0, len(lst), 512):
             progs.append({"fam": "strs", "what": what, "strs": [amlgen.chars(s) for s in lst[i:i + 512]]})
+    if th:
+        # a seventh of all letter triples (chosen by the seed) x all 65536 digit quadruples, by digest tabulation
+        bases = [b for b in range(17576) if b % 7 == ctx.seed % 7]
+        before = len(ctx.fails)
+        ac.judge(ctx, ac.sweep_programs("eisa", bases, 65536, 8), "c16sweep", timeout=7200)
+        ac.refine_sweep_failures(ctx, ctx.fails[before:], "c16sweep")
+        ctx.extra["eisa_sweep"] = "%d letter triples x 65536 digit quadruples by digest tabulation" % len(bases)
     ctx.samples = [ids[100], uu[100], bad_ids[3], bad_uu[5]]
     ctx.n = len(ids) + len(uu) + len(bad_ids) + len(bad_uu)
     ctx.distinct = set(ids) | set(uu) | set(bad_ids) | set(bad_uu)
